@@ -6,6 +6,7 @@ mod aiger;
 mod dimacs;
 mod fmt;
 mod mem;
+mod raw;
 mod reader;
 mod renum;
 mod scan;
@@ -61,6 +62,7 @@ fn main() {
         _ if suite == "writer" => writer::suite(&prop, &tier, seed),
         _ if suite == "scan" => scan::suite(&prop, &tier, seed),
         _ if suite == "mem" => mem::suite(&prop, &tier, seed),
+        _ if suite == "raw" => raw::suite(&prop, &tier, seed),
         _ if suite == "renumber" => renum::suite(&prop, &tier, seed),
         _ => {
             eprintln!("unknown suite {}", suite);
